@@ -10,7 +10,7 @@ func init() {
 			"whose write-back happens only on the no-error edge, whose recover handler re-panics exactly for out-of-gas errors and otherwise converts the panic into an error; and that the subscriber loop visits every subscriber.",
 		NotCovered:  []string{"'exactly once' over block-time sequences as a trace property", "grid start + n*duration as a number over histories"},
 		Assumptions: []string{"sdk.Context.CacheContext isolates writes until write() is called (SDK)"},
-		MinObl:      55,
+		MinObl:      58,
 		Run:         runC17,
 	})
 }
@@ -37,9 +37,12 @@ func runC17(c *rules.Ctx) {
 	c.Returns("osmoutils.ApplyFuncIfNoError", 0, "osmoutils.applyFunc(ctx, f, _)", "the exported wrapper delegates with the same context and function", "")
 
 	// ---- subscribers are run through the wrapper ---------------------------------------------------
+	epochsHookContainmentRules(c)
 	const PC = "x/epochs/types.panicCatchingEpochHook"
-	c.HasCall(PC, "osmoutils.ApplyFuncIfNoError", []string{"ctx", "closure:epochstypes.panicCatchingEpochHook$1(hookFn,epochIdentifier,epochNumber)"}, true, "each subscriber call is wrapped by the cache-context helper", "")
-	c.ApplyFuncClosures("x/epochs/types", 1, "inside the wrapper the subscriber receives the wrapper's (cache) context, not a captured one")
+	// timers are decoded one by one into a fresh, reset message; the query reports the epoch counter
+	c.HasCall("x/epochs/keeper.Keeper.IterateEpochInfo", "proto.Unmarshal", []string{"cosmos-db.Iterator.Value(_)", "_"}, false, "each stored timer is decoded with proto.Unmarshal, which resets the target (a zero-valued field never inherits the previous timer's value)", "")
+	c.NoCall("x/epochs/keeper.Keeper.IterateEpochInfo", "epochstypes.EpochInfo.Unmarshal", "the non-resetting generated Unmarshal is not used for iteration")
+	c.Returns("x/epochs/keeper.Querier.CurrentEpoch", 0, "with:CurrentEpoch(zero:QueryCurrentEpochResponse(), epochskeeper.Keeper.GetEpochInfo(q.Keeper,_,req.Identifier).CurrentEpoch) | nil", "the current-epoch query reports the timer's epoch counter", "")
 	c.CallArgN(PC+"$1", "dyn[0=^hookFn]", 2, "^epochIdentifier", "with the signalled identifier", 1, "")
 	c.CallArgN(PC+"$1", "dyn[0=^hookFn]", 3, "^epochNumber", "and the signalled epoch number", 1, "")
 	c.NoPanicOrErrorExit(PC, "a failing subscriber does not stop the block: the helper returns normally whatever the subscriber did")
